@@ -246,6 +246,16 @@ class Enumerator:
             if st.orelse:
                 raise Unsupported("for-else")
             return [(ev, None)]
+        if isinstance(st, ast.While) and not st.orelse:
+            # one symbolic round, like a for loop: target '' and the (un-inlined) test in the place of the iterable
+            body_paths = set()
+            for ev, t in self.block(st.body):
+                if t == "continue":
+                    t = None
+                if t in ("return", "raise"):
+                    raise Unsupported("return/raise inside a while loop")
+                body_paths.add(tuple(ev))
+            return [([("loop", "", "while " + norm(st.test), frozenset(body_paths))], None)]
         if isinstance(st, ast.With):
             head = [("with", self.tx(i.context_expr)) for i in st.items]
             return [(head + ev, t) for ev, t in self.block(st.body)]
